@@ -89,7 +89,7 @@ def posmask(n, positions):
 LAYOUTS = ['C', 'ro', 'strided', 'F', 'swap']
 TYPES = ['f8', 'i8', 'i4', 'i2', 'u2', 'u1']
 MASKTYPES = ['bool', 'i1', 'u1', 'i2', 'u2', 'i4', 'u4', 'i8', 'u8']
-SFORMS = ['py', 'np', '0d', 'u1']
+SFORMS = ['py', 'np', '0d', 'u1']       # ('i1': numpy.int8, used for the wide skymask windows only)
 VARIANTS = LAYOUTS       # (kept: the layouts used for pairs of calls)
 
 
@@ -148,6 +148,8 @@ def sc0(x, v, kind=float):
         return x
     if f == 'u1' and integral and 0 <= x <= 255:
         return np.uint8(x)
+    if f == 'i1' and integral and -128 <= x <= 127:
+        return np.int8(x)
     if f == '0d':
         return np.array(x)
     return np.int64(x) if integral else np.float64(x)
@@ -493,7 +495,7 @@ def sky_judge(exp, obs):
 
 
 def sky_classify(dtype, obs, c=None, how='C'):
-    if c is not None and vp(how)[3] == 'u1' and c['ngrow'] >= 128 and not obs['err']:
+    if c is not None and not obs['err'] and ((vp(how)[3] == 'u1' and c['ngrow'] >= 128) or (vp(how)[3] == 'i1' and c['ngrow'] >= 64)):
         return 'D-C17-5'      # width = 2*ngrow + 1 overflows a numpy.uint8 ngrow
     if dtype in ('int16', 'int32', 'int64') and obs['err'] and obs['exc'].startswith('TypeError'):
         return 'D-C17-2'
@@ -536,10 +538,14 @@ def run_case(ctx, c, exp, idx=0, deferred=None, lv=None):
             obs = median_call(c['A'], c['w'], dt, lv)
             res.append((dt + '@' + lv, median_judge(exp, obs), obs, None))
     elif kind == 'sky':
-        for dt in sky_dtypes(c['flags'], lv):
-            obs = sky_call(ctx, c, dt, lv)
+        todo = [(dt, lv) for dt in sky_dtypes(c['flags'], lv)]
+        if c['ngrow'] >= 63:      # 2*ngrow+1 leaves the range of the 8-bit integer that may carry ngrow
+            parts = vp(lv)
+            todo += [('int32', '.'.join(parts[:3] + [f])) for f in ('u1', 'i1') if c['ngrow'] <= (255 if f == 'u1' else 127)]
+        for dt, how in todo:
+            obs = sky_call(ctx, c, dt, how)
             why = sky_judge(exp, obs)
-            res.append((dt + '@' + lv, why, obs, sky_classify(dt, obs, c, lv) if why else None))
+            res.append((dt + '@' + how, why, obs, sky_classify(dt, obs, c, how) if why else None))
     else:
         raise core.MachineryError('unknown case kind %r' % kind)
     return res
